@@ -3,11 +3,14 @@
 //	VERIF_FUZZ_PROP=C03 go test -tags verif -run '^$' -fuzz '^FuzzProp$' -fuzztime 2000000x ./fz
 //
 // The engine only *adds* inputs: the verdict on each execution is the property's own oracle (props.FuzzOne).
-// A rejected execution makes the target fail; Go minimises the input and writes it to testdata/fuzz/FuzzProp/,
-// from where the driver (cmd/vcheck) picks it up, re-checks it through the property's Replay and reports it.
+// A rejected execution is written to $VERIF_FUZZ_OUT/bad-<locus hash>.json (the smallest input per locus is kept)
+// and makes the target fail; the driver (cmd/vcheck) re-checks each recorded case in a fresh process and reports it.
 package fz
 
 import (
+	"crypto/sha1"
+	"encoding/json"
+	"fmt"
 	"os"
 	"path/filepath"
 	"testing"
@@ -24,6 +27,32 @@ func repo() string {
 	return "/repo"
 }
 
+// Record is what the target leaves behind for the driver.
+type Record struct {
+	Sel    uint16            `json:"sel"`
+	Data   []byte            `json:"data"`
+	Result *props.FuzzResult `json:"result,omitempty"`
+	Hang   bool              `json:"hang,omitempty"`
+}
+
+func leave(dir, name string, rec *Record) {
+	if dir == "" {
+		return
+	}
+	b, err := json.Marshal(rec)
+	if err != nil {
+		return
+	}
+	p := filepath.Join(dir, name)
+	if st, err := os.Stat(p); err == nil && st.Size() <= int64(len(b)) {
+		return
+	}
+	tmp := fmt.Sprintf("%s.%d.tmp", p, os.Getpid())
+	if os.WriteFile(tmp, b, 0o644) == nil {
+		_ = os.Rename(tmp, p)
+	}
+}
+
 func FuzzProp(f *testing.F) {
 	id := os.Getenv("VERIF_FUZZ_PROP")
 	if id == "" {
@@ -33,10 +62,8 @@ func FuzzProp(f *testing.F) {
 		f.Skip("property not served by the coverage-guided engine: " + id)
 	}
 	// seeds: the distilled corpus of earlier campaigns, then the repository's own examples
-	n := 0
-	for _, e := range wl.CovCorpus() {
-		f.Add(e, uint16(n*7))
-		n++
+	for i, e := range wl.CovCorpus() {
+		f.Add(e, uint16(i*7))
 	}
 	for i, e := range wl.Corpus(repo()) {
 		if len(e.Markdown) <= 600 && i%3 == 0 {
@@ -45,28 +72,29 @@ func FuzzProp(f *testing.F) {
 	}
 	f.Add([]byte("\x80\x80\n\x80\x80"), uint16(5*32))
 	maxLen := 2048
-	hang := os.Getenv("VERIF_FUZZ_HANGDIR")
+	out := os.Getenv("VERIF_FUZZ_OUT")
 	f.Fuzz(func(t *testing.T, data []byte, sel uint16) {
 		if len(data) > maxLen {
 			return
 		}
 		var tm *time.Timer
-		if id == "C01" && hang != "" {
+		if id == "C01" && out != "" {
 			// a case that is still running after 60 s of wall time is handed to the driver, which decides on the CPU
-			// time of an isolated replay; the worker must die for the engine to record the input
+			// time of an isolated replay; the worker has to die for the engine to move on
 			in := append([]byte(nil), data...)
 			tm = time.AfterFunc(60*time.Second, func() {
-				_ = os.WriteFile(filepath.Join(hang, "hang.in"), in, 0o644)
-				_ = os.WriteFile(filepath.Join(hang, "hang.sel"), []byte{byte(sel), byte(sel >> 8)}, 0o644)
+				leave(out, fmt.Sprintf("hang-%d.json", os.Getpid()), &Record{Sel: sel, Data: in, Hang: true})
 				os.Exit(7)
 			})
 		}
-		bad, cfgName, detail, _ := props.FuzzOne(id, sel, data)
+		r := props.FuzzOne(id, sel, data)
 		if tm != nil {
 			tm.Stop()
 		}
-		if bad {
-			t.Fatalf("property %s rejected this execution: config=%s %s", id, cfgName, detail)
+		if r.Bad {
+			h := sha1.Sum([]byte(r.Class + "|" + r.Locus))
+			leave(out, fmt.Sprintf("bad-%x.json", h[:6]), &Record{Sel: sel, Data: append([]byte(nil), data...), Result: &r})
+			t.Fatalf("property %s rejected this execution: config=%s class=%s locus=%s", id, r.Config, r.Class, r.Locus)
 		}
 	})
 }
